@@ -8,7 +8,7 @@ from . import calltree
 PROP = "C10"
 LEVEL = "exploration"
 BUDGET = {"quick": 300, "thorough": 1700}
-NCASES = {"quick": 900, "thorough": 16000}
+NCASES = {"quick": 2500, "thorough": 30000}
 RULE = ("generated call DAGs (2-8 memento functions, fan-out <= 4) with repeated, batched (call_batch with duplicates), "
         "map_over_range, keyword-presented, ignore_result, failing-and-caught and failing-and-propagating sub-calls and "
         "file/custom resource handles; round 0 runs the root on an empty store, rounds 1-4 forget the root plus a drawn subset "
